@@ -16,7 +16,7 @@ def showRes : Res → String
 def parseEv : String → Option Ev
   | "callStart" => some .callStart | "startOk" => some .startOk | "startFail" => some .startFail
   | "callFinish" => some .callFinish | "hsDone" => some .hsDone | "finishOk" => some .finishOk
-  | "finishFail" => some .finishFail | "close" => some .close | "api" => some .api | "closure" => some .closure
+  | "finishFail" => some .finishFail | "close" => some .close | "disconnect" => some .disconnect | "api" => some .api | "closure" => some .closure
   | _ => none
 
 def clStep (s : State) (ws : List String) : State × String :=
